@@ -90,6 +90,7 @@ func iamStart() {
 func iamReset() {
 	writeBase()
 	iamKeys = map[string][2]string{}
+	iamOld = map[string]string{}
 	iamToken = map[string]string{baseAK: "base"}
 }
 
@@ -135,8 +136,52 @@ func storedIdentities() []interface{} {
 	return ids
 }
 
+// rotateSecret replaces the secret of the access key made for script token key in the stored identities (the access
+// key id stays): what an operator does when a secret leaked. The IAM API of this version has no call for it, so the
+// identity file is rewritten the way `s3.configure` does; the gateway follows the change like any other.
+func rotateSecret(key string) bool {
+	kp, ok := iamKeys[key]
+	if !ok {
+		return false
+	}
+	content, err := filer.ReadInsideFiler(fc, filer.IamConfigDirecotry, filer.IamIdentityFile)
+	must(err, "read identities")
+	cfg := &iam_pb.S3ApiConfiguration{}
+	must(filer.ParseS3ConfigurationFromBytes(content, cfg), "parse identities")
+	done := false
+	for _, id := range cfg.Identities {
+		for _, c := range id.Credentials {
+			if c.AccessKey == kp[0] {
+				c.SecretKey = "R" + kp[1][1:]
+				if c.SecretKey == kp[1] {
+					c.SecretKey = "Q" + kp[1][1:]
+				}
+				iamOld[key] = kp[1]
+				iamKeys[key] = [2]string{kp[0], c.SecretKey}
+				done = true
+			}
+		}
+	}
+	if done {
+		var b bytes.Buffer
+		must(filer.ProtoToText(&b, cfg), "identities")
+		must(filer.SaveInsideFiler(fc, filer.IamConfigDirecotry, filer.IamIdentityFile, b.Bytes()), "save identities")
+	}
+	return done
+}
+
+var iamOld = map[string]string{} // script key token -> the secret it had before the last rotation
+
 func doIamOp(e tr.Ev) {
 	op, user, key := tr.S(e, "op"), tr.S(e, "user"), tr.S(e, "key")
+	if op == "RotateSecret" {
+		e["status"] = 404
+		if rotateSecret(key) {
+			e["status"] = 200
+		}
+		e["ids"] = storedIdentities()
+		return
+	}
 	form := url.Values{"Action": {op}, "Version": {"2010-05-08"}}
 	if user != "" {
 		form.Set("UserName", user)
@@ -201,6 +246,16 @@ func doIReq(e tr.Ev) {
 	kp, ok := iamKeys[tr.S(e, "key")]
 	if !ok {
 		kp = [2]string{"AKNEVERMADE", "SKNEVERMADE0123456789"}
+	}
+	// "sec": "old" = signed with the secret the key had before its last rotation (no longer configured)
+	if sec, _ := e["sec"].(string); sec == "old" {
+		if o, has := iamOld[tr.S(e, "key")]; has {
+			kp[1] = o
+		} else {
+			kp[1] = "SKNEVERMADE0123456789"
+		}
+	} else {
+		e["sec"] = "cur"
 	}
 	b := bucket
 	if b == "" {
